@@ -18,3 +18,4 @@ Definition k_flow_create_request : pfun :=
     ] [];
     SReturn (PTuple [(PCall "Request/header,sec_trailer,alloc_hint,context_id,opnum,obj,stub_data" [(PMeth "_create_pdu_header" (PName "self") [(PName "PacketType.REQUEST"); (PName "auth_len"); (PInt 1)]); (PName "sec_trailer"); (PCall "len" [(PName "stub_data")]); (PName "context_id"); (PName "opnum"); PNone; (PName "stub_data")]); (PName "encrypt_offsets")])
   ] |}.
+Definition k_flow_create_request_defaults : list (string * pexp) := [("verification_trailer", PNone)].
